@@ -4,6 +4,7 @@ import core, lib
 from core import call_matches, call_names, op_place, op_local, backward_slice
 from props import shared
 
+WITNESSES = ['TreeReadOnlyUnderLock']      # compile-fail witnesses against the public surface (thorough tier; engine.WITNESSES)
 LEVEL = 'other'
 FLOOR = 30      # 70% of the 43 obligation instances derived on the tree the rules were last reviewed against
 EXPLANATION = ('A commit that dereferences a tree is planned (Log::begin_record) only on the not-deferred edge; deferral is decided from RwLock::is_locked of '
@@ -33,6 +34,8 @@ def run(ctx):
         # assigned constants (decision sites = its `= true` assignments), or the result of a predicate function (decision
         # sites = that function's `return true` assignments).
         dcs = pc.call_sites('db::DbInner::defer_commit')
+        # a deferral may also put (part of) the commit back itself: push_back onto the commit queue inside process_commits
+        dcs = dcs + [x for x in lib.field_effect_sites(pc, ['re:VecDeque.*::push_back$'], '.CommitQueue.commits') if x not in dcs and call_matches(pc.term(x), ['re:VecDeque.*::push_back$'])]
         dl = []
         for bi in pc.normal_blocks():
             t = pc.term(bi)
@@ -44,6 +47,7 @@ def run(ctx):
         dl = sorted(set(r for _, r in dl if r is not None))
         ctx.ob('1a defer-flag-anchor', 'anchor', pc.path, 'process_commits takes the deferral decision from one boolean whose true edge leads to defer_commit', len(dl) == 1, str(dl))
         lock_sets = []
+        decision_fields = set()
         DB = pc
         if len(dl) == 1:
             D = dl[0]
@@ -62,6 +66,7 @@ def run(ctx):
             by_lock = by_queue = 0
             for bi, st in sets:
                 calls, fields, binops = lib.guard_influences(DB, bi)
+                decision_fields.update(fields)
                 if any(re.search(r'RwLock.*::is_locked$', c) for c in lib.shallow_calls(F, calls, owner=DB.path)):
                     by_lock += 1
                     lock_sets.append(bi)
@@ -79,10 +84,14 @@ def run(ctx):
                 dc = pc.call_sites('db::DbInner::defer_commit')
                 r_nz = pc.reachable_from([nz_t], removed={sw[0]})
                 r_z = pc.reachable_from([zero_t], removed={sw[0]})
-                ctx.ob('1e planning-only-when-not-deferred', 'K3-guard', pc.path, 'Log::begin_record (start of planning, which walks and frees tree nodes) is not reachable from the defer==true edge',
-                       bool(br) and not any(b2 in r_nz for b2 in br) and all(b2 in r_z for b2 in br), '')
-                ctx.ob('1f deferred-commit-is-requeued', 'K1-must-pass', pc.path, 'on the defer==true edge every path passes defer_commit (the commit is not dropped)',
-                       bool(dc) and pc.find_path([nz_t], pc.return_blocks(), removed=set(dc) | core.error_exit_blocks(pc) | {sw[0]}) is None, '')
+                # what waits goes back onto the queue through defer_commit, or - when only the removals wait and the rest of the
+                # commit is planned right away - through a push_back in process_commits itself
+                requeue = set(dcs)
+                w1 = pc.find_path([nz_t], set(br), removed=requeue | {sw[0]}) if br else ['?']
+                ctx.ob('1e planning-only-when-not-deferred', 'K3-guard', pc.path, 'from the defer==true edge Log::begin_record (start of planning, which walks and frees tree nodes) is reached only after the removals were put back onto the queue',
+                       bool(br) and w1 is None and all(b2 in r_z for b2 in br), '' if w1 is None else lib.short_path(pc, w1))
+                ctx.ob('1f deferred-commit-is-requeued', 'K1-must-pass', pc.path, 'on the defer==true edge every path passes defer_commit or the re-queueing push (the removal is not dropped)',
+                       bool(requeue) and pc.find_path([nz_t], set(pc.return_blocks()) | set(br), removed=requeue | core.error_exit_blocks(pc) | {sw[0]}) is None, '')
                 # counters
                 td = [bi for bi, t in pc.calls() if bi in pc.normal_blocks() and call_matches(t, COUNTER_MUT) and '.Trees.to_dereference' in lib.receiver_fields(pc, t, 0)]
                 ctx.ob('4a counters-decremented-only-when-planned', 'K3-guard', pc.path, 'to_dereference is decremented only on the not-deferred path (a deferred commit keeps its pending count)',
@@ -161,6 +170,15 @@ def run(ctx):
     shared.more_work_signal(ctx, '3w')
     shared.deferral_is_surgical(ctx, '3')
     shared.no_mutual_deferral(ctx, '3z')
+    # a removal that waits can be overtaken by a LATER commit that writes the same root (InsertTree / ReferenceTree / DereferenceTree of
+    # the key): the later one is planned first, then the postponed removal is applied to whatever root it finds - the final state is not
+    # the one of commit order. The only record of "a removal of this root is waiting" is Trees.to_dereference; a deferral decision that
+    # never reads it cannot make later writers of the root wait (nor can it cancel / re-base the removal) (F49)
+    if pc:
+        infl_fields = set(decision_fields)      # what the `defer = true` sites depend on
+        ctx.ob('3x2 later-writes-of-the-root-wait-for-its-pending-removal', 'K3-guard', pc.path,
+               'the deferral decision also looks at Trees.to_dereference (is a removal of a root this commit writes still waiting?), so that a postponed removal is not overtaken by a later commit on the same root',
+               '.Trees.to_dereference' in infl_fields, 'the decision depends on %s only' % sorted(f for f in infl_fields if 'Trees' in f or 'used_trees' in f or 'CommitQueue' in f))
     dc = ctx.body('db::DbInner::defer_commit')
     if dc:
         sites = lib.sites_reaching(dc, [shared.COPY_IDX, shared.COPY_BT, shared.CLEAN_IDX, shared.CLEAN_BT])
@@ -179,6 +197,12 @@ def run(ctx):
             if CONSUME.search(nm) and t['a']:
                 fl = lib.receiver_fields(b, t, 0)
                 if '.BTreeChangeSet.changes' in fl or '.IndexedChangeSet.changes' in fl or '.IndexedChangeSet.node_changes' in fl:
+                    # splitting a list is not consuming it: the log worker may take the node changes of the commit it owns and store
+                    # the two halves back (the removals into the changeset that waits, the rest into the commit that goes on)
+                    if nm.endswith('mem::take') and lib.strip_closures(b.path) == 'db::DbInner::process_commits' and '.IndexedChangeSet.node_changes' in fl:
+                        stores = [x for x in b.normal_blocks() for st in b.blocks[x]['s'] if st['k'] == 'assign' and '.IndexedChangeSet.node_changes' in st['p'][1:]]
+                        if len([x for x in stores if x in b.reaches(bi)]) >= 2:
+                            continue
                     bad.append('%s calls %s at %s' % (b.path, nm, b.loc(bi)))
     ctx.ob('3p change-lists-never-consumed', 'K4-confinement', '-', 'no body drains, clears or takes the change lists of a change set (a deferred commit is cleaned under its old id and then re-queued with the same lists)', not bad, '; '.join(bad[:3]))
     # 5. registry
